@@ -46,6 +46,9 @@ func Replay(path string) int {
 			for i, a := range f.Schedule {
 				fmt.Printf("%3d   %s\n", i+1, a)
 			}
+			if os.Getenv("VERIF_VERBOSE") != "" {
+				spec.TraceRun(f.Schedule, func(format string, a ...interface{}) { fmt.Printf(format, a...) })
+			}
 			hit := false
 			for _, su := range succ {
 				if su.Action != f.Schedule[len(f.Schedule)-1] {
